@@ -13,6 +13,7 @@ package console
 // one of the public ones.  Every history is emitted as a Coq term for corr/ConsoleCorr.v.
 
 import (
+	"context"
 	"encoding/json"
 	"fmt"
 	"net"
@@ -386,8 +387,20 @@ func c38Routes(t *testing.T, rep *vReport) {
 				if cookie != "" {
 					req.Header.Set("Cookie", cookie)
 				}
+				// a handler that is reached may stream until the request is cancelled (metrics) or
+				// panic on the zero-value LFS handlers: both count as "answered, not 401"
+				ctx, cancel := context.WithTimeout(req.Context(), 100*time.Millisecond)
+				req = req.WithContext(ctx)
 				rec := httptest.NewRecorder()
-				mux.ServeHTTP(rec, req)
+				func() {
+					defer func() {
+						if p := recover(); p != nil {
+							rec.Code = 599
+						}
+					}()
+					mux.ServeHTTP(rec, req)
+				}()
+				cancel()
 				rep.Evaluations++
 				rep.Hist("route-probe")
 				if rec.Code != http.StatusUnauthorized && !public[rt.Pattern] {
